@@ -334,7 +334,7 @@ func ParseOTPAuthURL(u *url.URL) (*URLParam, error) {
 	}
 
 	if digitsStr := query.Get("digits"); digitsStr != "" {
-		if digitsInt, err := strconv.Atoi(digitsStr); err == nil {
+		if digitsInt, err := strconv.Atoi(digitsStr); err == nil && digitsInt >= 0 && digitsInt <= 255 {
 			param.Digits = Digits(digitsInt)
 		} else {
 			return nil, fmt.Errorf("invalid digits value: %s", digitsStr)
@@ -355,7 +355,7 @@ func ParseOTPAuthURL(u *url.URL) (*URLParam, error) {
 	}
 
 	if periodStr := query.Get("period"); periodStr != "" {
-		if p, err := strconv.Atoi(periodStr); err == nil {
+		if p, err := strconv.Atoi(periodStr); err == nil && p >= 0 {
 			param.Period = uint(p)
 		} else {
 			return nil, fmt.Errorf("invalid period value: %s", periodStr)
